@@ -758,6 +758,16 @@ class SimThreadHandle:
         self._name = name or f"SimThread-{len(sched.threads)}"
         self.daemon = bool(daemon) if daemon is not None else False
         self._t: SimThread | None = None
+        # a deterministic hash: code under test keeps threads in sets (``active: set[Thread]``) and iterates them; with the
+        # default id()-based hash the iteration order - hence the schedule - depends on where the allocator put the objects
+        sched._handle_seq = getattr(sched, "_handle_seq", 0) + 1
+        self._hseq = sched._handle_seq
+
+    def __hash__(self) -> int:
+        return self._hseq
+
+    def __eq__(self, other: object) -> bool:
+        return self is other
 
     @property
     def name(self) -> str:
